@@ -21,10 +21,18 @@ T_Loaded == /\ Ev.ev = "Loaded" /\ phase = "loaded"
             /\ Ev.verts = vrows                                   \* coordinates by vertex id
             /\ Ev.srcs = [i \in DOMAIN erows |-> erows[i][2]] /\ Ev.dsts = [i \in DOMAIN erows |-> erows[i][3]]
             /\ phase' = "idle" /\ UNCHANGED <<erows, vrows, nv, next, adj, rev, edges>>
+(* the same files behind a whole application: every edge by id through SearchAppGraphOps (origin, destination, length  *)
+(* as stored and in requested units), the incident edges of every vertex in both directions, no edge beyond the last *)
+T_AppGraph == /\ Ev.ev = "AppGraph" /\ phase = "idle" /\ edges # <<>>
+              /\ Ev.edges = edges
+              /\ Ev.m = [i \in DOMAIN edges |-> edges[i][4]] /\ Ev.km_milli = [i \in DOMAIN edges |-> edges[i][4]]
+              /\ \A v \in 0..(nv - 1) : SetOf(Ev.out[v + 1]) = SetOf(OutEdges(v)) /\ SetOf(Ev.inn[v + 1]) = SetOf(InEdges(v))
+              /\ Ev.beyond_is_error
+              /\ UNCHANGED nvars
 T_Table == /\ Ev.ev = "Table" /\ Ev.loaded = Ev.written /\ UNCHANGED nvars
 TInit == /\ l = 1 /\ erows = <<>> /\ vrows = <<>> /\ nv = 0 /\ next = 1 /\ adj = <<>> /\ rev = <<>> /\ edges = <<>>
          /\ phase = "idle"
-TNext == \/ (l <= Len(Rec) /\ l' = l + 1 /\ (T_Files \/ T_Loaded \/ T_Table))
+TNext == \/ (l <= Len(Rec) /\ l' = l + 1 /\ (T_Files \/ T_Loaded \/ T_AppGraph \/ T_Table))
          \/ S_Load \/ S_Finish
 TSpec == TInit /\ [][TNext]_tvars
 Track == TrackPos(l)
